@@ -25,6 +25,9 @@ structure VState where
   relmap : Rel
   /-- ghost: the (id, answer) pairs that were counted, oldest first -/
   log : List (Nat × Nat)
+  /-- ghost: real challenges consumed by an answer byte above 3 (`relativity_map[response]` raises KeyError after the
+      pending cache and the challenge were already removed; the handler is left by the exception) -/
+  dropped : List Nat
   /-- number of honesty challenges made up so far -/
   fresh : Nat
   /-- the aggregates handed to the completion callback, oldest first -/
@@ -45,7 +48,7 @@ def pendingIds (s : VState) : List Nat := s.pending.map Prod.fst
 /-- on_received_attestation: all challenges unanswered, the first 10 pending -/
 def init (n : Nat) : VState :=
   { n := n, unanswered := List.range n, pending := ((List.range n).take 10).map (fun i => (i, -1)),
-    relmap := Rel.empty, log := [], fresh := 0, completions := [], liar := false }
+    relmap := Rel.empty, log := [], dropped := [], fresh := 0, completions := [], liar := false }
 
 /-- "Send another proving hash" -/
 def sendNext (s : VState) (honesty : Option Nat) : VState :=
@@ -57,13 +60,16 @@ def sendNext (s : VState) (honesty : Option Nat) : VState :=
     | some c => { s with pending := s.pending ++ [(c, -1)] }
 
 /-- the part of on_challenge_response that handles the answer to the pending challenge (id, hc):
-    pop the pending cache, remove the challenge from the unanswered ones, count the answer / check honesty -/
-def afterAnswer (s : VState) (id r : Nat) (hc : Int) : VState :=
+    pop the pending cache, remove the challenge from the unanswered ones, count the answer / check honesty.
+    The Bool says whether the handler goes on (false: it was left by the KeyError of an answer byte above 3). -/
+def afterAnswer (s : VState) (id r : Nat) (hc : Int) : VState × Bool :=
   -- request_cache.pop("proving-hash", hash); if hash in hashed_challenges: remove it and the challenge
   let s2 := { s with pending := s.pending.filter (fun e => e.1 != id), unanswered := s.unanswered.erase id }
-  if hc < 0 then { s2 with relmap := s2.relmap.bump r, log := s2.log ++ [(id, r)] }
-  else if (r : Int) ≠ hc then { s2 with liar := true, completions := s2.completions ++ [Rel.empty] }
-  else s2
+  if hc < 0 then
+    if r ≤ 3 then ({ s2 with relmap := s2.relmap.bump r, log := s2.log ++ [(id, r)] }, true)
+    else ({ s2 with dropped := s2.dropped ++ [id] }, false)
+  else if (r : Int) ≠ hc then ({ s2 with liar := true, completions := s2.completions ++ [Rel.empty] }, true)
+  else (s2, true)
 
 /-- "Completed" or "Send another proving hash" -/
 def finish (s : VState) (honesty : Option Nat) : VState :=
@@ -74,7 +80,8 @@ def finish (s : VState) (honesty : Option Nat) : VState :=
 def onResponse (s : VState) (id r : Nat) (honesty : Option Nat) : VState :=
   match s.pending.find? (fun e => e.1 == id) with
   | none => s
-  | some (_, hc) => finish (afterAnswer s id r hc) honesty
+  | some (_, hc) =>
+    if (afterAnswer s id r hc).2 then finish (afterAnswer s id r hc).1 honesty else (afterAnswer s id r hc).1
 
 /-- the PendingChallengeCache of `id` times out (it is only dropped) -/
 def onTimeout (s : VState) (id : Nat) : VState :=
